@@ -45,6 +45,13 @@ Section Trace.
     intros r Hr. unfold post. apply pres_bind; [apply pres_eff|]. intros _.
     intros w r0 w' H Hi. inversion H; subst. unfold I. cbn [trace set_run]. constructor; assumption.
   Qed.
+  Lemma pres_post_at : forall i m ks mk, (forall c, P (mk c)) -> pres (post_at i m ks mk).
+  Proof.
+    intros i m ks mk Hmk w r w' H Hi. unfold post_at in H.
+    destruct (post (mk (counter_in w i m ks)) w) as [r1 w1] eqn:Ep.
+    pose proof (pres_post _ (Hmk (counter_in w i m ks)) _ _ _ Ep Hi) as Hi1.
+    destruct r1; inversion H; subst; exact Hi1.
+  Qed.
   Lemma pres_silent : forall X (m : M X), pres m -> pres (silent m).
   Proof.
     intros X m Hm w r w' H Hi. unfold silent in H.
@@ -85,6 +92,8 @@ Ltac pres_step :=
   | |- pres _ (set_pay _ _) => apply pres_set_pay
   | |- pres _ (modify _) => apply pres_modify; reflexivity
   | |- pres _ (silent _) => apply pres_silent
+  | |- pres _ (post_at _ _ _ _) => apply pres_post_at; intro; cbv beta; solve [eauto with pres]
+  | |- pres _ (post _) => apply pres_post; solve [eauto with pres]
   | |- pres _ (if ?b then _ else _) => destruct b
   | |- pres _ (match ?x with _ => _ end) => destruct x
   | |- pres _ (let '(_, _) := ?x in _) => destruct x
@@ -94,18 +103,21 @@ Ltac pres_auto := repeat (first [ pres_step | solve [eauto with pres] ]).
 Section Programs.
   Variable P : request -> Prop.
   Variable vr : variant.
-  (* every request the programs build satisfies P *)
-  Hypothesis P_req : forall l m ins outs ys, P (mkReq l m (map (mk_input vr) ins) outs ys).
-  Hypothesis P_req0 : forall l m outs ys, P (mkReq l m [] outs ys).
+  (* every request the programs build satisfies P: the five shapes of request construction *)
+  Hypothesis P_plain : forall l m ins ys st, P (mkReq l m (map (mk_input vr) ins) [] ys st).
+  Hypothesis P_derive : forall l m ins i ks split c,
+    P (mkReq l m (map (mk_input vr) ins) (derive i m ks c split) [] c).
+  Hypothesis P_send : forall m ins i aks lock to sa ns n0 split cs c,
+    P (mkReq lSwap m (map (mk_input vr) ins) (send_outputs i m aks lock to sa ns n0 split cs c) [] c).
+  Hypothesis P_batch : forall m seed ks c, P (mkReq lRestore m [] (batch seed m ks c) [] c).
+
+  Lemma P_plain0 : forall l m ys st, P (mkReq l m [] [] ys st).
+  Proof. intros. exact (P_plain l m [] ys st). Qed.
+  Lemma P_derive0 : forall l m i ks split c, P (mkReq l m [] (derive i m ks c split) [] c).
+  Proof. intros. exact (P_derive l m [] i ks split c). Qed.
 
   Local Notation pres := (pres P).
-  Local Hint Resolve pres_post : pres.
-
-  Lemma pres_post_in : forall l m ins outs ys, pres (post (mkReq l m (map (mk_input vr) ins) outs ys)).
-  Proof. intros. apply pres_post. apply P_req. Qed.
-  Lemma pres_post_0 : forall l m outs ys, pres (post (mkReq l m [] outs ys)).
-  Proof. intros. apply pres_post. apply P_req0. Qed.
-  Local Hint Resolve pres_post_in pres_post_0 : pres.
+  Local Hint Resolve P_plain P_derive P_send P_batch P_plain0 P_derive0 : pres.
 
   Lemma pres_deliver : forall inv, pres (deliver inv).
   Proof. intros. unfold deliver. pres_auto. Qed.
@@ -132,7 +144,7 @@ Section Programs.
   Lemma pres_add_mint : forall i m, pres (add_mint i m).
   Proof. intros. unfold add_mint. pres_auto. Qed.
   Local Hint Resolve pres_add_mint : pres.
-  Lemma pres_get_active_keyset : forall i m, pres (get_active_keyset i m).
+  Lemma pres_get_active_keyset : forall i m, pres (get_active_keyset vr i m).
   Proof. intros. unfold get_active_keyset. pres_auto. Qed.
   Local Hint Resolve pres_get_active_keyset : pres.
 
@@ -142,6 +154,10 @@ Section Programs.
   Proof. intros. unfold save_proofs. pres_auto. Qed.
   Local Hint Resolve pres_del_proofs pres_save_proofs : pres.
 
+  Lemma pres_send_submit : forall i m aks lock to sa ns n0 inputs split cs,
+    pres (send_submit vr i m aks lock to sa ns n0 inputs split cs).
+  Proof. intros. unfold send_submit. pres_auto. Qed.
+  Local Hint Resolve pres_send_submit : pres.
   Lemma pres_swap_to_send : forall i v a f lock to sa ns, pres (swap_to_send vr i v a f lock to sa ns).
   Proof. intros. unfold swap_to_send. pres_auto. Qed.
   Local Hint Resolve pres_swap_to_send : pres.
@@ -158,12 +174,15 @@ Section Programs.
   Lemma pres_set_wq_state : forall i m id st, pres (set_wq_state i m id st).
   Proof. intros. unfold set_wq_state. pres_auto. Qed.
   Local Hint Resolve pres_request_mint pres_set_wq_state : pres.
-  Lemma pres_mint_tokens : forall i m id, pres (mint_tokens i m id).
+  Lemma pres_mint_submit : forall i m id aks split, pres (mint_submit i m id aks split).
+  Proof. intros. unfold mint_submit. pres_auto. Qed.
+  Local Hint Resolve pres_mint_submit : pres.
+  Lemma pres_mint_tokens : forall i m id, pres (mint_tokens vr i m id).
   Proof. intros. unfold mint_tokens. pres_auto. Qed.
   Lemma pres_settle_at : forall m id, pres (settle_at m id).
   Proof. intros. unfold settle_at. pres_auto. Qed.
   Local Hint Resolve pres_mint_tokens pres_settle_at : pres.
-  Lemma pres_op_mint : forall i m a p, pres (op_mint i m a p).
+  Lemma pres_op_mint : forall i m a p, pres (op_mint vr i m a p).
   Proof. intros. unfold op_mint. pres_auto. Qed.
   Lemma pres_push_token : forall m d ps, pres (push_token m d ps).
   Proof. intros. unfold push_token. pres_auto. Qed.
@@ -175,6 +194,9 @@ Section Programs.
   Lemma pres_swap_in : forall i v ins, pres (swap_in vr i v ins).
   Proof. intros. unfold swap_in. pres_auto. Qed.
   Local Hint Resolve pres_op_send pres_op_send_locked pres_swap_in : pres.
+  Lemma pres_swap_store : forall i v ins, pres (swap_store vr i v ins).
+  Proof. intros. unfold swap_store. pres_auto. Qed.
+  Local Hint Resolve pres_swap_store : pres.
   Lemma pres_swap_proofs_quotes : forall fuel i from to num den pct fees total,
     pres (swap_proofs_quotes fuel i from to num den pct fees total).
   Proof. induction fuel as [|f IH]; intros; cbn [swap_proofs_quotes]; pres_auto. Qed.
@@ -238,8 +260,10 @@ Section Programs.
   Lemma pres_restore_mints : forall ms seed x, pres (restore_mints vr seed ms x).
   Proof. induction ms as [|m r IH]; intros; cbn [restore_mints]; pres_auto. Qed.
   Local Hint Resolve pres_restore_mints : pres.
-  Lemma pres_load_wallet : forall i, pres (load_wallet i).
+  Lemma pres_load_wallet : forall i, pres (load_wallet vr i).
   Proof. intros. unfold load_wallet. pres_auto. Qed.
+  Lemma pres_create_wallet : forall i, pres (create_wallet i).
+  Proof. intros. unfold create_wallet. pres_auto. Qed.
   Lemma pres_restored_wallet : forall i, pres (restored_wallet vr i).
   Proof. intros. unfold restored_wallet. pres_auto. Qed.
   Local Hint Resolve pres_load_wallet pres_restored_wallet : pres.
@@ -263,7 +287,7 @@ Section Programs.
     destruct (run_wop vr o w0) as [r w1] eqn:Er.
     pose proof (pres_run_wop o _ _ _ Er Hi0) as Hi1.
     destruct r as [a| |]; cbn [snd]; try exact Hi1.
-    destruct (silent (load_wallet (wallet_of w1 o)) w1) as [r2 w2] eqn:Es. cbn [snd].
+    destruct (silent (load_wallet vr (wallet_of w1 o)) w1) as [r2 w2] eqn:Es. cbn [snd].
     exact (pres_silent P _ _ (pres_load_wallet _) _ _ _ Es Hi1).
   Qed.
 
@@ -276,8 +300,8 @@ Section Programs.
   Lemma init_wallets_I : forall n i w, I P w -> I P (init_wallets n i w).
   Proof.
     induction n as [|n IH]; intros i w Hi; cbn [init_wallets]; [exact Hi|].
-    apply IH. destruct (silent (load_wallet i) w) as [r w1] eqn:Es. cbn [snd].
-    exact (pres_silent P _ _ (pres_load_wallet _) _ _ _ Es Hi).
+    apply IH. destruct (silent (create_wallet i) w) as [r w1] eqn:Es. cbn [snd].
+    exact (pres_silent P _ _ (pres_create_wallet _) _ _ _ Es Hi).
   Qed.
 
   Theorem trace_invariant : forall ms homes its,
@@ -319,34 +343,40 @@ Proof.
   - apply in_app_or in H. destruct H as [H|H]; apply in_map_iff in H; destruct H as [x [Hx _]]; discriminate.
 Qed.
 
-Lemma clean_built : forall l m ins outs ys, clean_request (mkReq l m (map (mk_input repaired) ins) outs ys).
+Lemma clean_built : forall l m ins outs ys st, clean_request (mkReq l m (map (mk_input repaired) ins) outs ys st).
 Proof.
   intros. split; [|apply secret_only_from_inputs].
   unfold atoms. cbn [rq_in rq_out rq_ys]. rewrite !forallb_app. rewrite no_r_flat_map_stripped.
   rewrite !forallb_map_const by reflexivity. reflexivity.
 Qed.
-Lemma clean_built0 : forall l m outs ys, clean_request (mkReq l m [] outs ys).
-Proof. intros. exact (clean_built l m [] outs ys). Qed.
 
 (* For every wallet history of the repaired code, every request ever emitted is clean. *)
 Theorem no_r_in_any_request : forall ms homes its r,
   In r (trace (exec_all repaired its (init_world ms homes))) -> clean_request r.
 Proof.
   intros ms homes its r Hin.
-  pose proof (trace_invariant clean_request repaired clean_built clean_built0 ms homes its) as H.
+  pose proof (trace_invariant clean_request repaired
+                (fun l m ins ys st => clean_built l m ins [] ys st)
+                (fun l m ins i ks split c => clean_built l m ins _ [] c)
+                (fun m ins i aks lock to sa ns n0 split cs c => clean_built lSwap m ins _ [] c)
+                (fun m seed ks c => clean_built lRestore m [] _ [] c) ms homes its) as H.
   rewrite Forall_forall in H. exact (H r Hin).
 Qed.
 
 (* the blinding factor of an input is only ever inside a token handed to the caller:
    requests never carry a DLEQ object at all *)
 Definition no_dleq_request (r : request) : Prop := forallb (fun i => negb (in_dleq i)) (rq_in r) = true.
-Lemma no_dleq_built : forall l m ins outs ys, no_dleq_request (mkReq l m (map (mk_input repaired) ins) outs ys).
+Lemma no_dleq_built : forall l m ins outs ys st, no_dleq_request (mkReq l m (map (mk_input repaired) ins) outs ys st).
 Proof. intros. unfold no_dleq_request. cbn [rq_in]. induction ins as [|p r IH]; [reflexivity|]. cbn. exact IH. Qed.
 Theorem no_dleq_in_any_request : forall ms homes its r,
   In r (trace (exec_all repaired its (init_world ms homes))) -> no_dleq_request r.
 Proof.
   intros ms homes its r Hin.
-  pose proof (trace_invariant no_dleq_request repaired no_dleq_built (fun l m o y => no_dleq_built l m [] o y) ms homes its) as H.
+  pose proof (trace_invariant no_dleq_request repaired
+                (fun l m ins ys st => no_dleq_built l m ins [] ys st)
+                (fun l m ins i ks split c => no_dleq_built l m ins _ [] c)
+                (fun m ins i aks lock to sa ns n0 split cs c => no_dleq_built lSwap m ins _ [] c)
+                (fun m seed ks c => no_dleq_built lRestore m [] _ [] c) ms homes its) as H.
   rewrite Forall_forall in H. exact (H r Hin).
 Qed.
 
